@@ -91,7 +91,8 @@ Definition lowest_energy (l : list A) : option A :=
   else match l with [] => None | x :: r => Some (argmin_go x r) end.
 
 (* ---------------------------------------------------------------------------------------- *)
-(* conformers.py:81-160  prune_on_energy (as repaired by d7bdc37) *)
+(* conformers.py:81-160  prune_on_energy, as repaired by the `fix:` commits d7bdc37 and 00c84a3
+   (uniqueness is tested against the conformers already kept, kept_confs) *)
 Variables e_tol n_sigma : Qc.
 
 (* :100-102  idxs_with_energy = [idx for idx, conf in enumerate(self) if conf.energy is not None] *)
@@ -105,44 +106,43 @@ Definition idxs_with_energy (l : list A) : list nat := idxs_with_energy_from 0 l
 Definition energies_of (l : list A) : list Qc :=
   flat_map (fun x => match en x with Some e => [e] | None => [] end) l.
 
-(* :134  np.abs(conf.energy - avg_e) / std_dev_e > n_sigma      (std_dev_e > 0)
+(* :136  np.abs(conf.energy - avg_e) / std_dev_e > n_sigma      (std_dev_e > 0)
    <=>  n_sigma < 0   or   (e - mu)^2 > n_sigma^2 * max(var, 1e-16) *)
 Definition outlier (mu v : Qc) (e : Qc) : bool :=
   if Qcltb n_sigma (Q2Qc 0) then true else Qcltb (n_sigma * n_sigma * v)%Qc (sqdev mu e).
 
-(* :147-151  np.abs(conf.energy - other.energy) < e_tol  for other ... if other.energy is not None *)
+(* :146-149  np.abs(conf.energy - other.energy) < e_tol for other in kept_confs   (every member of
+   kept_confs has an energy; one without could only get there after :136 had already raised) *)
 Definition near (e : Qc) (o : A) : bool :=
   match en o with Some e' => Qcltb (Qcabs (e - e')%Qc) e_tol | None => false end.
 
-(* one pass of the body of  `for i, idx in enumerate(reversed(idxs_with_energy))`,  first <-> i == 0.
-   `other is not conf` = every position of the current list except idx. *)
-Definition e_step (mu v : Qc) (first : bool) (idx : nat) (cur : list A) : res A :=
+(* :133-154  one pass of the body of  `for idx in reversed(idxs_with_energy)`; state = (self, kept_confs);
+   None = an exception escapes *)
+Definition e_step (mu v : Qc) (idx : nat) (cur kept : list A) : option (list A * list A) :=
   match nth_error cur idx with
-  | None => Crash                                  (* :132 conf = self[idx]  IndexError *)
+  | None => None                                   (* :134 conf = self[idx]       IndexError *)
   | Some conf =>
       match en conf with
-      | None => Crash                              (* :134 conf.energy - avg_e  TypeError *)
+      | None => None                               (* :136 conf.energy - avg_e     TypeError *)
       | Some e =>
-          if outlier mu v e then Ok (remove_nth idx cur)            (* :134-140 *)
-          else if first then Ok cur                                 (* :142-144 *)
-          else if existsb (near e) (remove_nth idx cur)             (* :147-151 *)
-               then Ok (remove_nth idx cur)                         (* :153 *)
-               else Ok cur
+          if outlier mu v e then Some (remove_nth idx cur, kept)            (* :141 del self[idx]; continue *)
+          else if existsb (near e) kept then Some (remove_nth idx cur, kept) (* :151 non unique: del *)
+          else Some (cur, kept ++ [conf])                                   (* :154 kept_confs.append(conf) *)
       end
   end.
-Fixpoint e_loop (mu v : Qc) (first : bool) (idxs : list nat) (cur : list A) : res A :=
+Fixpoint e_loop (mu v : Qc) (idxs : list nat) (cur kept : list A) : res A :=
   match idxs with
   | [] => Ok cur
-  | idx :: r => match e_step mu v first idx cur with
-                | Ok cur' => e_loop mu v false r cur'
-                | bad => bad
+  | idx :: r => match e_step mu v idx cur kept with
+                | Some (cur', kept') => e_loop mu v r cur' kept'
+                | None => Crash
                 end
   end.
 Definition prune_on_energy (l : list A) : res A :=
   let idxs := idxs_with_energy l in
   if length idxs <? 2 then Ok l                                     (* :105-110 *)
   else let es := energies_of l in
-       e_loop (mean es) (var_lb es) true (rev idxs) l.
+       e_loop (mean es) (var_lb es) (rev idxs) l [].
 
 (* ---------------------------------------------------------------------------------------- *)
 (* conformers.py:162-211  prune_on_rmsd;  d a b = calc_heavy_atom_rmsd(a.atoms, b.atoms) (oracle) *)
@@ -173,10 +173,15 @@ Definition prune (rm_no_e : bool) (l : list A) : res A :=
      self.conformers.prune(remove_no_energy=True)
      if not allow_connectivity_changes: self.conformers.prune_diff_graph(self.graph)
      self._set_lowest_energy_conformer()       (RuntimeError if lowest_energy is None) *)
-Inductive sel : Type := Selected (c : A) | NoSuitable | Raised.
+Inductive sel : Type :=
+| Selected (c : A)
+| NoSuitable        (* RuntimeError: conformers present but none has an energy *)
+| Raised.           (* NoConformers: from remove_no_energy, or from @requires_conformers (utils.py:395-410)
+                       on _set_lowest_energy_conformer when no conformer is left *)
 Definition select (allow : bool) (l : list A) : sel * res A :=
   let r := bind (prune true l) (fun l2 => if allow then Ok l2 else prune_diff_graph l2) in
   match r with
+  | Ok [] => (Raised, r)
   | Ok l3 => (match lowest_energy l3 with Some c => Selected c | None => NoSuitable end, r)
   | _ => (Raised, r)
   end.
@@ -190,8 +195,25 @@ Variable At : Type.                                   (* an atom *)
 Record mol := mkMol { m_atoms : list At; m_charge : Z; m_mult : Z;
                       g_nodes : nat; g_edges : list (nat * nat) }.
 
-(* atoms = sum((deepcopy(mol.atoms) for mol in args), None)   — left fold, None + x = x *)
-Definition c_atoms (ms : list mol) : list At := fold_left (fun acc m => acc ++ m_atoms m) ms [].
+(* atoms = sum((deepcopy(mol.atoms) for mol in args), None)      complex.py:123-126
+   `sum` is a left fold with `+`, and autode/atoms.py:593-605 (after `fix:` facdd37) defines
+       Atoms.__add__(self, other):  self if other is None else list.__add__(self, other)   -> a PLAIN list
+       Atoms.__radd__(self, other): self if other is None else list(other) + list(self)
+   so the accumulator is None, then an Atoms, then a plain list; and for  <plain list> + <Atoms>  Python
+   tries the reflected method of the right operand FIRST (its class is a proper subclass of list that
+   overrides __radd__): Atoms.__radd__(x, acc) = acc ++ x  (before the `fix:` commit it was
+   self.__add__(other) = x ++ acc: from the third molecule on the new atoms were PREPENDED). *)
+Inductive acc : Type := ANone | AAtoms (l : list At) | AList (l : list At).
+Definition add_atoms (a : acc) (x : list At) : acc :=
+  match a with
+  | ANone => AAtoms x            (* None + Atoms  -> Atoms.__radd__(x, None) = x *)
+  | AAtoms l => AList (l ++ x)   (* Atoms + Atoms -> Atoms.__add__ = list.__add__ *)
+  | AList l => AList (l ++ x)    (* list + Atoms  -> Atoms.__radd__(x, l) = list(l) + list(x)  (reflected first) *)
+  end.
+Definition acc_list (a : acc) : list At :=
+  match a with ANone => [] | AAtoms l => l | AList l => l end.      (* atoms=None: no atoms *)
+Definition c_atoms (ms : list mol) : list At :=
+  acc_list (fold_left (fun a m => add_atoms a (m_atoms m)) ms ANone).
 (* charge = sum(mol.charge for mol in args) *)
 Definition c_charge (ms : list mol) : Z := fold_left (fun acc m => (acc + m_charge m)%Z) ms 0%Z.
 (* mult = sum(m.mult for m in args) - (len(args) - 1) *)
